@@ -5,6 +5,7 @@ import SkaModel.Impl.Skf
 import SkaModel.Impl.Frame
 import SkaModel.Spec.SnappyFormat
 import SkaModel.Impl.Names
+import SkaModel.Impl.FileList
 import SkaModel.DriverBase
 import SkaModel.DriverHist
 
@@ -99,5 +100,20 @@ def runNames (c : Case) : String × String :=
       let hx := hexOf nm.toUTF8.toList
       if hx.isEmpty then "." else hx)
   (joinStr outs, "-")
+
+/-- the `-f` file list and the names file; fields as hex of UTF-8 -/
+def runFilelist (c : Case) : String × String :=
+  let bs := unhex (c.get "content")
+  match String.fromUTF8? (ByteArray.mk bs.toArray) with
+  | none => ("list=panic names=panic", "-")
+  | some str =>
+    let hx (cs : List Char) : String :=
+      let h := hexOf (String.ofList cs).toUTF8.toList
+      if h.isEmpty then "." else h
+    let lst := match FileList.parseList str.toList with
+      | none => "panic"
+      | some es => joinStr (es.map (fun (a, b, c) => s!"{hx a}:{hx b}:{match c with | none => "-" | some x => hx x}"))
+    let nms := joinStr ((FileList.nameList str.toList).map hx)
+    (s!"list={lst} names={nms}", "-")
 
 end SkaModel.Driver
